@@ -158,7 +158,21 @@ macro_rules! canon_seq { ($t:ident, $sort:expr $(, $b:path)*) => {
     }
 } }
 canon_seq!(Vec, false);
-canon_seq!(VecDeque, false);
+// VecDeque: equal values have different ring-buffer layouts; build a *wrapped* one (as_slices().1 non-empty) for most
+// lengths so that impls which look at the storage (as_slices, make_contiguous) are exercised on both layouts.
+impl<T: Canon> Canon for VecDeque<T> {
+    fn parse(p: &mut P) -> Self {
+        let mut v = p.list(|p| T::parse(p));
+        let n = v.len();
+        if n < 2 || n % 3 == 0 { return v.into_iter().collect() }
+        let back = v.split_off(n / 2);
+        let mut d = VecDeque::with_capacity(n + 1);
+        for x in back { d.push_back(x) }
+        for x in v.into_iter().rev() { d.push_front(x) }
+        d
+    }
+    fn show(&self) -> String { show_list(self.iter().map(|x| x.show()).collect(), false) }
+}
 canon_seq!(LinkedList, false);
 canon_seq!(BinaryHeap, true, Ord);
 canon_seq!(BTreeSet, true, Ord);
